@@ -28,19 +28,28 @@ func checkC19(c *Ctx) {
 	c19Fresh(c)
 
 	// C19.2 counter discipline
-	ws := c.whoMayWrite("C19.2", p.Field("security/crypto", "Bitfield", "len"), "Bitfield.len", "(*hs/security/crypto.Bitfield).set", "hs/security/crypto.BitfieldFromBytes")
+	// the operations that may change a bit field are Add and the decoder; their private helpers (today set, extend) are theirs
+	ws := c.whoMayWrite("C19.2", p.Field("security/crypto", "Bitfield", "len"), "Bitfield.len", "(*hs/security/crypto.Bitfield).Add", "hs/security/crypto.BitfieldFromBytes")
+	nInc := 0
 	for _, w := range ws {
 		st, ok := w.Instr.(*ssa.Store)
-		if !ok || w.Fn.Name() != "set" {
-			continue
+		if !ok || w.Fresh || declaredParent(w.Fn).Name() == "BitfieldFromBytes" {
+			continue // the decoder recounts from the bytes (checked below)
 		}
 		fl := NewFlow(p, w.Fn)
+		if !strings.HasSuffix(fl.K.Key(st.Val), kBF+"len + c:1)") {
+			continue
+		}
+		nInc++
 		facts := fl.At(st)
-		okInc := fl.K.Key(st.Val) == "(p0->"+kBF+"len + c:1)" && falseOf(facts, func(k string) bool { return strings.HasPrefix(k, "(hs/security/crypto.Bitfield).isSet(*p0, p1, p2)") })
+		okInc := fl.K.Key(st.Val) == "(p0->"+kBF+"len + c:1)" && falseOf(facts, func(k string) bool { return strings.HasPrefix(k, "(hs/security/crypto.Bitfield).isSet(*p0, ") })
 		c.Check(okInc, "C19.2", "set: len++ only for a bit that was clear", p.InstrPos(st), "len := len+1 only under !isSet(byteIdx, bitIdx)", "increment not gated by !isSet; facts: "+join(facts.Sorted()))
 	}
+	if nInc == 0 {
+		c.Unresolved("C19.2", "Bitfield.len increment", "no len := len+1 found")
+	}
 	c.whoMayWrite("C19.2", p.Field("security/crypto", "Bitfield", "data"), "Bitfield.data",
-		"(*hs/security/crypto.Bitfield).extend", "(*hs/security/crypto.Bitfield).set", "hs/security/crypto.BitfieldFromBytes")
+		"(*hs/security/crypto.Bitfield).Add", "hs/security/crypto.BitfieldFromBytes")
 	if fb := p.Func("security/crypto", "BitfieldFromBytes"); fb != nil {
 		// recount: len is set from a counter incremented once per ForEach callback
 		fl := NewFlow(p, fb)
@@ -270,29 +279,105 @@ func checkC19(c *Ctx) {
 	}
 	if ad := p.Method("security/crypto", "Bitfield", "Add"); ad != nil {
 		fl := NewFlow(p, ad)
-		ext := p.Method("security/crypto", "Bitfield", "extend")
-		set := p.Method("security/crypto", "Bitfield", "set")
-		ok := false
-		for _, s := range callsIn(ad, false, func(cc *ssa.CallCommon) bool { return calleeIs(cc, set) }) {
-			// every path to set either has byteIdx < len(data) or passed extend(byteIdx+1-len)
-			w := cfgSearch(fl, nil, ad.Blocks[0], func(in ssa.Instruction) bool { return in == s }, isCallTo(ext), func(fs []Fact) bool {
-				for _, f := range fs {
-					if f.Op == "<" && strings.Contains(f.L, "crypto.index(") && strings.HasPrefix(f.R, "builtin len(") {
-						return true
+		dataField := func(k *Keyer, v ssa.Value) bool { return strings.HasSuffix(k.Key(v), kBF+"data") }
+		// does fn write an element of data / grow data?
+		writesElem := func(fn *ssa.Function) bool {
+			k, found := NewKeyer(p, fn), false
+			eachInstr(fn, func(in ssa.Instruction) {
+				if st, ok := in.(*ssa.Store); ok {
+					if ia, ok := st.Addr.(*ssa.IndexAddr); ok && dataField(k, ia.X) {
+						found = true
 					}
 				}
-				return false
 			})
-			ok = w == nil
+			return found
 		}
-		extOK := false
-		for _, s := range callsIn(ad, false, func(cc *ssa.CallCommon) bool { return calleeIs(cc, ext) }) {
-			k := fl.K.Key(s.Common().Args[1])
-			if strings.Contains(k, "crypto.index(") && strings.Contains(k, "+ c:1)") && strings.Contains(k, "- builtin len(") {
-				extOK = true
+		growAmount := func(fn *ssa.Function, in ssa.Instruction) string {
+			// data = append(data, make([]byte, n)...): returns the key of n
+			k := NewKeyer(p, fn)
+			st, ok := in.(*ssa.Store)
+			if !ok {
+				return ""
 			}
+			fa, ok := st.Addr.(*ssa.FieldAddr)
+			if !ok || fieldName(fa.X.Type(), fa.Field) != kBF+"data" {
+				return ""
+			}
+			call, ok := st.Val.(*ssa.Call)
+			if !ok || len(call.Call.Args) != 2 {
+				return ""
+			}
+			if b, ok := call.Call.Value.(*ssa.Builtin); !ok || b.Name() != "append" || !dataField(k, call.Call.Args[0]) {
+				return ""
+			}
+			if ms, ok := call.Call.Args[1].(*ssa.MakeSlice); ok {
+				return k.Key(ms.Len)
+			}
+			return ""
 		}
-		c.Check(ok && extOK, "C19.5", "Add: extends before setting", p.FuncPos(ad), "set is reached only with byteIdx < len(data), after extend(byteIdx+1-len(data)) otherwise", "set reachable beyond the end of data")
+		enough := func(k string) bool {
+			return strings.Contains(k, "crypto.index(") && strings.Contains(k, "+ c:1)") && strings.Contains(k, "- builtin len(")
+		}
+		// the set operation in Add: a direct element store, or a call of a helper of the package that performs it
+		isSetOp := func(in ssa.Instruction) bool {
+			if st, ok := in.(*ssa.Store); ok {
+				if ia, ok := st.Addr.(*ssa.IndexAddr); ok && dataField(fl.K, ia.X) {
+					return true
+				}
+			}
+			if ci, ok := in.(ssa.CallInstruction); ok {
+				if cal := ci.Common().StaticCallee(); cal != nil && cal != ad && cal.Blocks != nil && funcPkgPath(cal) == funcPkgPath(ad) && writesElem(cal) {
+					return true
+				}
+			}
+			return false
+		}
+		// the extension in Add: data grown by byteIdx+1-len(data), directly or through a helper that grows by its argument
+		extOK := false
+		isExt := func(in ssa.Instruction) bool {
+			if n := growAmount(ad, in); n != "" && enough(n) {
+				extOK = true
+				return true
+			}
+			if ci, ok := in.(ssa.CallInstruction); ok {
+				cal := ci.Common().StaticCallee()
+				if cal == nil || cal == ad || cal.Blocks == nil || funcPkgPath(cal) != funcPkgPath(ad) || len(ci.Common().Args) != 2 {
+					return false
+				}
+				grows := false
+				eachInstr(cal, func(x ssa.Instruction) {
+					if growAmount(cal, x) == "p1" {
+						grows = true
+					}
+				})
+				if grows && enough(fl.K.Key(ci.Common().Args[1])) {
+					extOK = true
+					return true
+				}
+			}
+			return false
+		}
+		inBounds := func(fs []Fact) bool {
+			for _, f := range fs {
+				if f.Op == "<" && strings.Contains(f.L, "crypto.index(") && strings.HasPrefix(f.R, "builtin len(") {
+					return true
+				}
+			}
+			return false
+		}
+		ok, n := true, 0
+		eachInstr(ad, func(in ssa.Instruction) {
+			if !isSetOp(in) {
+				return
+			}
+			n++
+			// every path to the set operation either has byteIdx < len(data) or passed the extension
+			if w := cfgSearch(fl, nil, ad.Blocks[0], func(x ssa.Instruction) bool { return x == in }, isExt, inBounds); w != nil {
+				ok = false
+			}
+		})
+		eachInstr(ad, func(in ssa.Instruction) { isExt(in) })
+		c.Check(ok && n > 0 && extOK, "C19.5", "Add: extends before setting", p.FuncPos(ad), "the bit is set only with byteIdx < len(data), after growing data by byteIdx+1-len(data) otherwise", "set reachable beyond the end of data")
 	}
 }
 
@@ -444,10 +529,17 @@ func c19Fresh(c *Ctx) {
 			// resolve a captured variable to the cell of the enclosing function
 			owner := fn
 			for i := 0; i < 4; i++ {
+				viaCell := false
+				if u, isLoad := recv.(*ssa.UnOp); isLoad && u.Op == token.MUL {
+					if _, isFV := u.X.(*ssa.FreeVar); isFV {
+						recv, viaCell = u.X, true // a captured pointer variable: the cell holds the pointer
+					}
+				}
 				fv, ok := recv.(*ssa.FreeVar)
 				if !ok || owner.Parent() == nil {
 					break
 				}
+				_ = viaCell
 				var bound ssa.Value
 				eachInstr(owner.Parent(), func(in ssa.Instruction) {
 					if mc, ok := in.(*ssa.MakeClosure); ok && mc.Fn == owner {
@@ -462,12 +554,49 @@ func c19Fresh(c *Ctx) {
 					break
 				}
 				recv, owner = bound, owner.Parent()
+				if viaCell {
+					// the cell's content: the single value stored into it (typically a spilled parameter)
+					if cell, isAlloc := bound.(*ssa.Alloc); isAlloc {
+						var vals []ssa.Value
+						storedInto(cell, func(v ssa.Value) bool { vals = append(vals, v); return false })
+						if len(vals) == 1 {
+							recv = vals[0]
+						}
+					}
+				}
+			}
+			// a pointer parameter of a private helper: every caller must pass the address of such a local
+			if prm, isPrm := recv.(*ssa.Parameter); isPrm && owner.Object() != nil && !owner.Object().Exported() {
+				idx := -1
+				for i, q := range owner.Params {
+					if q == prm {
+						idx = i
+					}
+				}
+				ci := callIndexOf(p)
+				refs := ci.callers[owner]
+				if idx >= 0 && len(refs) > 0 && !ci.asValue[owner] {
+					allFresh := true
+					for _, r := range refs {
+						a, isAlloc := r.Instr.(ssa.CallInstruction).Common().Args[idx].(*ssa.Alloc)
+						if !isAlloc || c19AllocAssigned(p, r.In, a) != "" {
+							allFresh = false
+						}
+					}
+					if allFresh {
+						c.Held("C19.6", shortName(fn)+": Add mutates a bit field that owns its bytes", p.Pos(s.Pos()),
+							"the receiver is a parameter of a private helper; every caller passes the address of a local that starts empty and is never assigned another bit field")
+						continue
+					}
+				}
 			}
 			al, ok := recv.(*ssa.Alloc)
 			reason := ""
 			if !ok {
 				reason = "the receiver " + NewKeyer(p, fn).Key(s.Common().Args[0]) + " is not a local bit field of the function (it may share its bytes with another signature)"
-			} else {
+			} else if r := c19AllocAssigned(p, owner, al); r != "" {
+				reason = r
+			} else if false {
 				k := NewKeyer(p, owner)
 				if al.Referrers() != nil {
 					for _, r := range *al.Referrers() {
@@ -492,4 +621,27 @@ func c19Fresh(c *Ctx) {
 	if n < 2 {
 		c.Unresolved("C19.6", "Bitfield.Add call sites", "expected the sites in Sign and Combine; found "+itoa(n))
 	}
+}
+
+// c19AllocAssigned: "" if the local bit field al of fn only ever holds its zero value or a
+// Bitfield{} literal before being mutated; otherwise what it is assigned.
+func c19AllocAssigned(p *Prog, fn *ssa.Function, al *ssa.Alloc) string {
+	k := NewKeyer(p, fn)
+	if al.Referrers() == nil {
+		return ""
+	}
+	for _, r := range *al.Referrers() {
+		if st, isSt := r.(*ssa.Store); isSt && st.Addr == al {
+			if u, isLoad := st.Val.(*ssa.UnOp); isLoad {
+				if a2, isA := u.X.(*ssa.Alloc); isA && a2.Comment == "complit" {
+					continue // Bitfield{} literal
+				}
+			}
+			if cst, isC := st.Val.(*ssa.Const); isC && cst.Value == nil {
+				continue
+			}
+			return "the accumulator is assigned " + k.Key(st.Val) + " at " + p.InstrPos(st) + ": it shares that bit field's bytes, and Add then changes the other signature's membership while its count stays stale"
+		}
+	}
+	return ""
 }
